@@ -127,7 +127,7 @@ def consumer_kind(arm_body, read_node):
             nm = H.callee_name(p)
             if nm in POOL_KIND:
                 return POOL_KIND[nm]
-            if nm in ("try_get", "get_or_create", "create", "get_or_create_range"):
+            if nm in ("try_get", "get_or_create", "get_or_create_check_exclusive", "create", "get_or_create_range"):
                 return "label"
             if nm in ("Ok", "Some"):
                 continue
